@@ -340,10 +340,11 @@ func (li *LogInst) Submit(pe *ctlog.PendingLogEntry, low bool) *Sub {
 	e := li.Env
 	e.mu.Lock()
 	e.nextSub++
-	s := &Sub{ID: e.nextSub, E: pe, Low: low, Inst: li, Round: li.Round}
+	s := &Sub{ID: e.nextSub, E: pe, Low: low, Inst: li}
 	e.mu.Unlock()
 	li.mu.Lock()
 	defer li.mu.Unlock()
+	s.Round = li.Round
 	s.Wait, s.Source = li.Log.VerifAddLeafToPool(context.Background(), pe, low)
 	if s.Source == "sequencer" {
 		li.pool = append(li.pool, s)
@@ -357,8 +358,11 @@ func (li *LogInst) SubmitConcurrent(pe *ctlog.PendingLogEntry, low bool) *Sub {
 	e := li.Env
 	e.mu.Lock()
 	e.nextSub++
-	s := &Sub{ID: e.nextSub, E: pe, Low: low, Inst: li, Round: li.Round}
+	s := &Sub{ID: e.nextSub, E: pe, Low: low, Inst: li}
 	e.mu.Unlock()
+	li.mu.Lock()
+	s.Round = li.Round
+	li.mu.Unlock()
 	s.Wait, s.Source = li.Log.VerifAddLeafToPool(context.Background(), pe, low)
 	return s
 }
